@@ -158,7 +158,7 @@ def run (j : Json) : Except String Json := do
   let base := [
     ("modelSteps", stepCheck modelState),
     ("full", resToJson full), ("stages", Json.arr stages.toArray), ("again", resToJson again),
-    ("wf", .bool (wfHistory ms)), ("inDomain", .bool (inDomain ms doc)),
+    ("wf", .bool (wfHistory ms)), ("wfMappings", .bool (ms.all wfMapping)), ("inDomain", .bool (inDomain ms doc)),
     ("docVersion", optInt (docVersion doc)), ("effVersion", optInt (effectiveVersion doc)),
     ("hasVersionKey", .bool (hasVersionKey doc)),
     ("deserIn", resToJson deserIn), ("deserExtras", resToJson extras), ("initVersion", optInt initV), ("upgradeAgrees", optBool upg)]
